@@ -37,7 +37,7 @@ pub struct Opts {
     pub dir: String,
 }
 
-fn refresh_live<S: StorageData>(db: &DbImpl<S>) -> Live {
+pub fn refresh_live<S: StorageData>(db: &DbImpl<S>) -> Live {
     let mut live = Live::default();
     if let Ok(r) = db.exec(SearchQuery { algorithm: SearchQueryAlgorithm::Elements, origin: QueryId::Id(DbId(0)), destination: QueryId::Id(DbId(0)),
                                          limit: 0, offset: 0, order_by: vec![], conditions: vec![] }) {
